@@ -10,7 +10,7 @@ def peTail (c : Cfg) (s1 : S) (e1 : Bool) : S × Option Phase :=
     let s2 := { s1 with direct := false, rs := none, retries := (rsReset c s1).retries }
     if c.oneway then (s2, some .Oneway)
     else if s1.phase ≠ .UpFilter then (s2, some .UpFilter)
-    else (s2, if e1 then some .End else none)
+    else (s2, none)   -- [proxy7] the response pass goes on with the local reply, whatever set `err` before (fix a3a21969e)
   else if s1.up.isSome && s1.setupRetry then ({ s1 with up := some none, setupRetry := false }, some .Retry)
   else (s1, if e1 || s1.procDone then some .End else none)
 
